@@ -42,6 +42,10 @@ def run(ctx: Context) -> None:
     _share(ctx, _c08, {'R08.1', 'R08.2', 'R08.7'}, 'R09.8')
     from .common import adopt_foundations as _adopt
     _adopt(ctx, 'R09.9', ['masks', 'topology'], floor=60)
+    ctx.rule('R09.11', "stored bounds are what the polygons of a clipped grid dataset are made of: the bounds reader uses them whenever they have the expected dimensions, "
+             "including when they are nan outside the selection (facts shared with C06 R06.3 / R06.4)", floor=14)
+    from . import c06 as _c06
+    _share(ctx, _c06, {'R06.3', 'R06.4'}, 'R09.11')
     ctx.rule('R09.10', "the re-assembled result can be saved: an attribute of the input is not copied onto a variable that already holds the same key as an encoding", floor=2)
     ctx.assume("NOT decided: that the saved file reopens as the same convention (needs the file)")
     ctx.assume("xarray/netCDF apply encoding dtype and _FillValue on write")
